@@ -55,6 +55,7 @@ class Ctx:
         self.base = []  # z3 constraints valid on every path (assumptions + definitions)
         self.assumptions = []  # human-readable
         self._pcache = {}
+        self.bvars = {}
         self.known_pos = set()
         self.known_pos_polys = []
         self.pos_gens = set()
@@ -84,6 +85,11 @@ class Ctx:
             self.base.append(zv == self.uf_decl[fname](arg.e))
             self.uf_apps[key] = g
         return self.uf_apps[key]
+
+    def boolvar(self, name):
+        if name not in self.bvars:
+            self.bvars[name] = z3.Bool(name)
+        return self.bvars[name]
 
     def assume(self, zexpr, text=None):
         self.base.append(zexpr)
@@ -462,14 +468,15 @@ class DictModel:
 
     def __init__(self, values):
         self.values = dict(values)
-        self._subs = [(CTX.zvars[n], RV(v)) for n, v in self.values.items()]
+        self._subs = [(CTX.zvars[n], RV(v)) if n in CTX.zvars else (CTX.bvars[n], z3.BoolVal(bool(v)))
+                      for n, v in self.values.items() if n in CTX.zvars or n in CTX.bvars]
 
     def eval(self, expr, model_completion=True):
         return z3.simplify(z3.substitute(expr, *self._subs))
 
 
 def _candidate_models(base_vals):
-    names = list(base_vals)
+    names = [n for n in base_vals if n in CTX.zvars]
     import random
     rnd = random.Random(12345)
     for _ in range(3):
@@ -872,10 +879,17 @@ def model_values(model, names=None):
     """Rational (or 30-digit approximated algebraic) values of the context's symbols in a z3 model."""
     out = {}
     if isinstance(model, DictModel):
-        return {n: model.values.get(n, Fraction(0)) for n in (names if names is not None else CTX.names + CTX.pool[: CTX.pool_used])}
+        out = {n: model.values.get(n, Fraction(0)) for n in (names if names is not None else CTX.names + CTX.pool[: CTX.pool_used])}
+        if names is None:
+            for n in CTX.bvars:
+                out[n] = Fraction(1 if model.values.get(n) else 0)
+        return out
     for n in (names if names is not None else CTX.names + CTX.pool[: CTX.pool_used]):
         v = model.eval(CTX.zvars[n], model_completion=True)
         out[n] = z3val_to_fraction(v)
+    if names is None:
+        for n, b in CTX.bvars.items():
+            out[n] = Fraction(1 if z3.is_true(model.eval(b, model_completion=True)) else 0)
     return out
 
 
@@ -893,7 +907,8 @@ def z3val_to_fraction(v):
 
 def eval_under(zexpr, values):
     """Evaluate a z3 Bool under a full rational assignment; returns True/False/None."""
-    subs = [(CTX.zvars[n], RV(v)) for n, v in values.items()]
+    subs = [(CTX.zvars[n], RV(v)) if n in CTX.zvars else (CTX.bvars[n], z3.BoolVal(bool(v)))
+            for n, v in values.items() if n in CTX.zvars or n in CTX.bvars]
     r = z3.simplify(z3.substitute(zexpr, *subs))
     if z3.is_true(r):
         return True
